@@ -67,6 +67,8 @@ def run(chk):
     for ns, nd in ((1, 1), (1, 2), (2, 1), (2, 2)):
         ex += A.gen_exhaustive(ns, nd, "plain", blocks=("run",), ps=tuple(range(ns)))
     ex += A.gen_exhaustive(1, 1, "plain", blocks=("run", "run"), ps=(0,))
+    # drain while the actor is still in pre_start (spawn_instant, pre_start parked at a gate)
+    ex += A.instant_scenarios(chk.rng, 60 if quick else 600)
     res = A.run_scenarios(chk, build, ex, "C07e")
     verdicts(chk, res, "exhaustive", distinct)
     chk.count("exhaustive.scenarios", len(ex))
@@ -102,6 +104,32 @@ def run(chk):
                           "C07 engine E5: actor did not report an exit (wall-clock bounded wait; not a deterministic verdict)\n"
                           + A.describe(r), failing_input=False)
 
+    # ---- race rounds: senders that are REFUSED while the drain takes its marker decision. Not timing based: per
+    # round all threads are done and drain() has returned, then the actor runs to the quiescence barrier and must
+    # have exited with reason Drained having handled everything accepted
+    n_rounds = (3000 if quick else 30000) * factor
+    rres = A.run_race(chk, build, [(n_rounds // 2, 8, chk.seed), (n_rounds // 2, 6, chk.seed + 1)], "C07")
+    for r in rres:
+        chk.coverage["evaluations"] += r["rounds"]
+        chk.count("race.rounds", r["rounds"])
+        chk.count("race.bad_rounds", r["bad"])
+        for log, (v7, v2) in zip(r["bad_logs"], r["bad_verdicts"]):
+            payload = json.dumps({"harness_line": r["line"], "rounds": r["rounds"], "bad_rounds": r["bad"],
+                                  "event_log_of_a_bad_round": log,
+                                  "replay_cmd": f"echo '{r['line']}' | harness/target/debug/{A.BIN}   (race: re-runs the family)"},
+                                 indent=1)
+            if not v7:
+                chk.violation("drain left the actor running / lost an accepted message in a race round",
+                              "C07 oracle check_C07 rejects the event log of a race round (all senders joined, drain() returned, "
+                              "actor run to quiescence)\n" + payload)
+            else:
+                chk.violation("race round flagged by the harness but accepted by the oracle",
+                              "C07 race: harness/oracle disagree\n" + payload, failing_input=False)
+        for log, (v7, v2) in zip(r["good_logs"], r["good_verdicts"]):
+            if not (v7 and v2):
+                chk.violation("oracle rejects a race round the harness considers fine",
+                              "C07 race: oracle rejects\n" + json.dumps({"harness_line": r["line"], "log": log}, indent=1))
+
     chk.coverage["traces_validated_against_impl"] = len(A.CORPUS) + len(ex) + len(rnd)
     chk.coverage["distinct_nontrivial"] = len(distinct)
     chk.coverage["rule"] = (
@@ -109,7 +137,9 @@ def run(chk):
         "(box_message door: ticket taken, not yet enqueued) with 1..2 drain() calls, in variants plain / re-entrant drain "
         "from box_message / re-entrant send from box_message / an extra un-gated send, each followed by run, a late send, run; "
         "post_stop family: 1..2 senders x 1..2 drains with the actor run at every intermediate position and the target's "
-        "post_stop releasing the parked senders; "
+        "post_stop releasing the parked senders; instant family: spawn_instant target parked in pre_start, all sequences of "
+        "length <= 3 over {send, drain, parked sender thread, send whose handler drains} before the start gate opens; race: "
+        "3000 rounds of 6..8 pooled sender threads casting until refused against one drain() (verdict after quiescence); "
         "random: seeded structured scenarios (gated threads, handler scripts with self-sends/drain/stop/kill, wrong type, "
         "failing box/handler, drains at every phase, repeated drains); stress: uncontrolled OS threads racing a double drain "
         "(oracle only). non-trivial = at least one send and one drain; distinct = distinct scenario texts. "
